@@ -521,6 +521,11 @@ func (n *network) GetConnection(name gen.Atom) (gen.Connection, error) {
 		return v.(gen.Connection), nil
 	}
 
+	if n.running.Load() == false {
+		// no registrar to ask (it is gone with the network stack)
+		return nil, gen.ErrNetworkStopped
+	}
+
 	if lib.Trace() {
 		n.node.Log().Trace("trying to make connection with %s", name)
 	}
